@@ -1,12 +1,20 @@
 package c10
 
 import (
+	"bytes"
 	"context"
+	"encoding/json"
 	"fmt"
+	"os"
+	"os/exec"
+	"path/filepath"
+	"sort"
 	"strings"
+	"sync"
 	"sync/atomic"
 	"testing"
 	"testing/synctest"
+	"time"
 
 	"github.com/anishathalye/porcupine"
 
@@ -14,18 +22,45 @@ import (
 	"github.com/evstack/ev-node/sequencers/single"
 
 	"verif/harness/explore"
+	"verif/harness/vf"
 	"verif/harness/world"
 )
 
-// Concurrent part of C10: two submitters and one consumer call the REAL single.Sequencer concurrently. The queue's
-// mutex (overlay copy of sequencers/single with the lock shim) and every datastore operation are gates of the
-// cooperative scheduler, so the explorer enumerates the interleavings (delay-bounded); the recorded call/return
-// history of every interleaving is checked for linearizability against a bounded FIFO with porcupine, followed by a
-// sequential drain and a reload.
-
+// Concurrent part of C10: submitters and a consumer call the REAL single.Sequencer concurrently. The queue's mutex
+// (overlay copy of sequencers/single with the lock shim) and every datastore operation are gates of the cooperative
+// scheduler; in addition the ENTRY of every Lock() is a gate (world.GateLocks), also when the lock is free, and so is
+// the start of every operation. One step of a thread is therefore one of
+//
+//	[call .. Lock() entry]   everything an operation evaluates before it asks for the queue lock
+//	[Lock() .. datastore op] / [datastore op .. next datastore op or return]   pieces of the critical section
+//
+// and the explorer enumerates the interleavings of these steps (all of them for the small thread programs,
+// delay-bounded for the larger ones). In particular "X evaluates everything before Lock(), Y runs one or more whole
+// operations, X continues" is a schedule of its own (counted in the evidence as pre-lock separations).
+//
+// Each execution ends in one of two ways:
+//
+//   - quiescence (all threads returned): the process is FORKED. One future drains the live instance, the other opens
+//     a new sequencer on a copy of the datastore (restart) and drains that. Oracle: (1) the concurrent history followed
+//     by the live drain is linearizable w.r.t. a bounded FIFO with exactly-once delivery (porcupine); (2) the restarted
+//     instance hands out exactly what the live instance hands out, in the same order (the acceptance order is fixed
+//     when the submissions are acknowledged, a restart must not change it: WAL contents == in-memory queue);
+//     (3) after either drain a further restart hands out nothing.
+//   - crash cut (choice class "crash", at most one, at any scheduling point): the process dies with operations in
+//     flight; a new sequencer is opened on the datastore as it is and drained. Oracle: for SOME fate of every
+//     in-flight call (not applied / applied with unknown result / for a submission also: applied in memory only, i.e.
+//     visible to concurrent calls until the crash but not durable), completed operations + crash + restart drain are
+//     linearizable: every acknowledged submission is handed out exactly once across the crash, nothing handed out
+//     comes back, order is acceptance order.
 type qIn struct {
 	submit bool
 	id     string
+	wild   bool // in flight when the process crashed: applied with unknown result
+	// volatile (wild submissions only): applied in memory, where concurrent calls could see it (it occupies a slot and
+	// can be handed out), but not durable: it vanishes with the crash. The property speaks about accepted
+	// (acknowledged) batches only, so this is a legal fate of a submission that never returned.
+	volatile bool
+	crash    bool // the crash itself: volatile entries vanish
 }
 type qOut struct {
 	ok bool   // submit accepted
@@ -41,6 +76,31 @@ func fifoModel(bound int) porcupine.Model {
 				q = strings.Split(s, ",")
 			}
 			in, out := input.(qIn), output.(qOut)
+			if in.crash {
+				var kept []string
+				for _, e := range q {
+					if !strings.HasSuffix(e, "~") {
+						kept = append(kept, e)
+					}
+				}
+				return true, strings.Join(kept, ",")
+			}
+			if in.wild {
+				if in.submit {
+					if len(q) >= bound {
+						return true, state
+					}
+					id := in.id
+					if in.volatile {
+						id += "~" // entries marked ~ are in memory only
+					}
+					return true, strings.Join(append(append([]string{}, q...), id), ",")
+				}
+				if len(q) == 0 {
+					return true, state
+				}
+				return true, strings.Join(q[1:], ",")
+			}
 			if in.submit {
 				if len(q) >= bound {
 					return !out.ok, state
@@ -53,7 +113,7 @@ func fifoModel(bound int) porcupine.Model {
 			if len(q) == 0 {
 				return out.id == "", state
 			}
-			if out.id != q[0] {
+			if out.id != strings.TrimSuffix(q[0], "~") {
 				return false, state
 			}
 			return true, strings.Join(q[1:], ",")
@@ -61,6 +121,15 @@ func fifoModel(bound int) porcupine.Model {
 		Equal: func(a, b interface{}) bool { return a.(string) == b.(string) },
 		DescribeOperation: func(input, output interface{}) string {
 			in, out := input.(qIn), output.(qOut)
+			if in.crash {
+				return "crash"
+			}
+			if in.wild {
+				if in.submit {
+					return fmt.Sprintf("submit(%s)->in-flight", in.id)
+				}
+				return "next()->in-flight"
+			}
 			if in.submit {
 				return fmt.Sprintf("submit(%s)->%v", in.id, out.ok)
 			}
@@ -69,80 +138,719 @@ func fifoModel(bound int) porcupine.Model {
 	}
 }
 
-type concOutcome struct {
-	fail  *world.Fail
-	trace string
+// ---------------------------------------------------------------------------------------------------------------
+// thread programs
+
+type concThread struct {
+	name string
+	ops  []qIn
 }
 
-func concBody(t *testing.T, c *explore.Ctx, bound int) (out concOutcome) {
-	synctest.Test(t, func(t *testing.T) { out = concBubble(c, bound) })
+type concProg struct {
+	name    string
+	threads []concThread
+	delay   [2]int // delay bound quick / thorough; -1 = every interleaving
+	crash   [2]bool
+	tier    int // 0 = both tiers, 1 = thorough only
+}
+
+func sub(ids ...string) []qIn {
+	var out []qIn
+	for _, id := range ids {
+		out = append(out, qIn{submit: true, id: id})
+	}
+	return out
+}
+func nexts(n int) []qIn { return make([]qIn, n) }
+
+// concProgs: indices are part of replay files, append only.
+var concProgs = []concProg{
+	{name: "2 submitters (A | C)", threads: []concThread{{"submitter-1", sub("A")}, {"submitter-2", sub("C")}}, delay: [2]int{-1, -1}, crash: [2]bool{true, true}},
+	{name: "2 submitters, identical contents (A | A)", threads: []concThread{{"submitter-1", sub("A")}, {"submitter-2", sub("A")}}, delay: [2]int{-1, -1}, crash: [2]bool{true, true}},
+	{name: "submitter and consumer (A | next)", threads: []concThread{{"submitter-1", sub("A")}, {"consumer", nexts(1)}}, delay: [2]int{-1, -1}, crash: [2]bool{true, true}},
+	{name: "3 submitters (A | B | C)", threads: []concThread{{"submitter-1", sub("A")}, {"submitter-2", sub("B")}, {"submitter-3", sub("C")}}, delay: [2]int{-1, -1}, crash: [2]bool{false, true}},
+	{name: "2 submitters and consumer (A | C | next)", threads: []concThread{{"submitter-1", sub("A")}, {"submitter-2", sub("C")}, {"consumer", nexts(1)}}, delay: [2]int{-1, -1}, crash: [2]bool{false, true}},
+	{name: "2 submitters x 2 (A,B | C,A)", threads: []concThread{{"submitter-1", sub("A", "B")}, {"submitter-2", sub("C", "A")}}, delay: [2]int{-1, -1}, crash: [2]bool{false, true}},
+	{name: "2 submitters and consumer (A,B | C | next,next)", threads: []concThread{{"submitter-1", sub("A", "B")}, {"submitter-2", sub("C")}, {"consumer", nexts(2)}}, delay: [2]int{4, 7}, crash: [2]bool{true, true}},
+	{name: "2 submitters, identical contents, and consumer (A,B | A | next,next)", threads: []concThread{{"submitter-1", sub("A", "B")}, {"submitter-2", sub("A")}, {"consumer", nexts(2)}}, delay: [2]int{4, 7}, crash: [2]bool{true, true}},
+	{name: "2 submitters and consumer, identical contents (A | A | next)", threads: []concThread{{"submitter-1", sub("A")}, {"submitter-2", sub("A")}, {"consumer", nexts(1)}}, delay: [2]int{-1, -1}, crash: [2]bool{false, true}, tier: 1},
+	{name: "submitter and 2 consumers (A | next | next)", threads: []concThread{{"submitter-1", sub("A")}, {"consumer-1", nexts(1)}, {"consumer-2", nexts(1)}}, delay: [2]int{-1, -1}, crash: [2]bool{false, true}},
+	{name: "3 submitters and consumer (A | B | A | next,next)", threads: []concThread{{"submitter-1", sub("A")}, {"submitter-2", sub("B")}, {"submitter-3", sub("A")}, {"consumer", nexts(2)}}, delay: [2]int{5, 5}, crash: [2]bool{true, true}, tier: 1},
+	{name: "2 submitters and consumer (A,B | C | next), every interleaving", threads: []concThread{{"submitter-1", sub("A", "B")}, {"submitter-2", sub("C")}, {"consumer", nexts(1)}}, delay: [2]int{-1, -1}, crash: [2]bool{false, false}, tier: 1},
+}
+
+type concCfg struct {
+	Prog  int  `json:"prog"`
+	Bound int  `json:"bound"`
+	Pre   int  `json:"pre"`   // batches "P" accepted sequentially and carried over a restart before the threads start
+	Crash bool `json:"crash"` // crash cuts enabled
+}
+
+type concOutcome struct {
+	fail     *world.Fail
+	tags     []string
+	trace    string // with timestamps (messages)
+	key      string // outcome without timestamps
+	crashed  bool
+	overlap  bool // two submissions overlapped in time
+	preLock  bool // some thread sat between its pre-lock evaluation and its Lock() while another thread ran a whole operation
+	inflight int
+	steps    int
+}
+
+func concBody(t *testing.T, c *explore.Ctx, cfg concCfg) (out concOutcome) {
+	synctest.Test(t, func(t *testing.T) { out = concBubble(c, cfg) })
 	return
 }
 
-func concBubble(c *explore.Ctx, bound int) (out concOutcome) {
+type inflightOp struct {
+	client int
+	in     qIn
+	call   int64
+}
+
+func nextID(resp *coreseq.GetNextBatchResponse, err error) string {
+	if err == nil && resp != nil && resp.Batch != nil && len(resp.Batch.Transactions) > 0 {
+		return string(resp.Batch.Transactions[0])
+	}
+	return ""
+}
+
+func concBubble(c *explore.Ctx, cfg concCfg) (out concOutcome) {
+	prog := concProgs[cfg.Prog]
+	bound := cfg.Bound
 	sched := world.NewSched(func(n int, names []string) int { return c.Choose("sched", n) })
+	undo := sched.GateLocks()
+	defer undo()
 	defer sched.Off()
-	kv := world.NewKV(nil)
-	kv.Gate = sched.Gate
 	ctx := context.Background()
-	seq, err := single.NewSequencerWithQueueSize(ctx, world.Logger, kv, nil, []byte(chainID), 0, nil, true, bound)
-	if err != nil {
-		out.fail = &world.Fail{Clause: "engine", Msg: err.Error()}
-		return
+	engine := func(msg string) concOutcome {
+		return concOutcome{fail: &world.Fail{Clause: "engine", Msg: msg}}
 	}
 	var clock atomic.Int64
 	var ops []porcupine.Operation
-	opCh := make(chan porcupine.Operation, 16)
-	submit := func(client int, id string) {
-		call := clock.Add(1)
-		_, err := seq.SubmitBatchTxs(ctx, coreseq.SubmitBatchTxsRequest{Id: []byte(chainID), Batch: &coreseq.Batch{Transactions: [][]byte{[]byte(id)}}})
-		opCh <- porcupine.Operation{ClientId: client, Input: qIn{true, id}, Call: call, Output: qOut{ok: err == nil}, Return: clock.Add(1)}
-	}
-	next := func(client int) {
-		call := clock.Add(1)
-		resp, err := seq.GetNextBatch(ctx, coreseq.GetNextBatchRequest{Id: []byte(chainID)})
-		id := ""
-		if err == nil && resp != nil && resp.Batch != nil && len(resp.Batch.Transactions) > 0 {
-			id = string(resp.Batch.Transactions[0])
+	nSubmits := cfg.Pre
+	for _, th := range prog.threads {
+		for _, in := range th.ops {
+			if in.submit {
+				nSubmits++
+			}
 		}
-		opCh <- porcupine.Operation{ClientId: client, Input: qIn{false, ""}, Call: call, Output: qOut{id: id}, Return: clock.Add(1)}
 	}
-	sched.Go("submitter-1", func() { submit(0, "A"); submit(0, "B") })
-	sched.Go("submitter-2", func() { submit(1, "C") })
-	sched.Go("consumer", func() { next(2); next(2) })
+	open := func(image map[string][]byte) (*world.KV, *single.Sequencer, error) {
+		kv := world.NewKV(image)
+		seq, err := single.NewSequencerWithQueueSize(ctx, world.Logger, kv, nil, []byte(chainID), 0, nil, true, bound)
+		return kv, seq, err
+	}
+	submitTo := func(seq *single.Sequencer, id string) error {
+		_, err := seq.SubmitBatchTxs(ctx, coreseq.SubmitBatchTxsRequest{Id: []byte(chainID), Batch: &coreseq.Batch{Transactions: [][]byte{[]byte(id)}}})
+		return err
+	}
+	// drainOps drains an instance until the first empty answer and returns the answers as operations of client 100.
+	drainOps := func(seq *single.Sequencer) (ids []string, dops []porcupine.Operation) {
+		for i := 0; i < nSubmits+2; i++ {
+			call := clock.Add(1)
+			id := nextID(seq.GetNextBatch(ctx, coreseq.GetNextBatchRequest{Id: []byte(chainID)}))
+			dops = append(dops, porcupine.Operation{ClientId: 100, Input: qIn{}, Call: call, Output: qOut{id: id}, Return: clock.Add(1)})
+			if id == "" {
+				break
+			}
+			ids = append(ids, id)
+		}
+		return
+	}
+
+	// sequential prologue: Pre batches accepted by an earlier incarnation and carried over a restart
+	var image map[string][]byte
+	if cfg.Pre > 0 {
+		kv0, seq0, err := open(nil)
+		if err != nil {
+			return engine(err.Error())
+		}
+		for i := 0; i < cfg.Pre; i++ {
+			call := clock.Add(1)
+			err := submitTo(seq0, "P")
+			ops = append(ops, porcupine.Operation{ClientId: 99, Input: qIn{submit: true, id: "P"}, Call: call, Output: qOut{ok: err == nil}, Return: clock.Add(1)})
+		}
+		image = kv0.Image()
+	}
+	kv, seq, err := open(image)
+	if err != nil {
+		return engine(err.Error())
+	}
+	kv.Gate = sched.Gate
+
+	var (
+		mu   sync.Mutex
+		done []porcupine.Operation
+		cur  = map[int]*inflightOp{}
+		dead atomic.Bool
+	)
+	for ti, th := range prog.threads {
+		ti, th := ti, th
+		sched.Go(th.name, func() {
+			for i, in := range th.ops {
+				if i > 0 {
+					sched.Gate("op") // the start of an operation is a scheduling point of its own
+				}
+				if dead.Load() {
+					return
+				}
+				call := clock.Add(1)
+				mu.Lock()
+				cur[ti] = &inflightOp{client: ti, in: in, call: call}
+				mu.Unlock()
+				var o qOut
+				if in.submit {
+					o.ok = submitTo(seq, in.id) == nil
+				} else {
+					o.id = nextID(seq.GetNextBatch(ctx, coreseq.GetNextBatchRequest{Id: []byte(chainID)}))
+				}
+				if dead.Load() {
+					return // the process died while this call was in flight (it went on only because the gates are off)
+				}
+				mu.Lock()
+				delete(cur, ti)
+				done = append(done, porcupine.Operation{ClientId: ti, Input: in, Call: call, Output: o, Return: clock.Add(1)})
+				mu.Unlock()
+			}
+		})
+	}
+	if cfg.Crash {
+		sched.Interrupt = func() bool { return c.Choose("crash", 2) == 1 }
+	}
 	sched.Drain()
+	m := fifoModel(bound)
+	describe := func(list []porcupine.Operation) string {
+		var sb strings.Builder
+		for _, op := range list {
+			fmt.Fprintf(&sb, "[%d..%d c%d %s] ", op.Call, op.Return, op.ClientId, m.DescribeOperation(op.Input, op.Output))
+		}
+		return sb.String()
+	}
+	short := func(list []porcupine.Operation) string {
+		var sb strings.Builder
+		for _, op := range list {
+			fmt.Fprintf(&sb, "c%d:%s ", op.ClientId, m.DescribeOperation(op.Input, op.Output))
+		}
+		return sb.String()
+	}
+	out.tags = []string{"concurrent"}
+	identical := map[string]int{}
+	for _, th := range prog.threads {
+		for _, in := range th.ops {
+			if in.submit {
+				identical[in.id]++
+			}
+		}
+	}
+	for _, n := range identical {
+		if n > 1 {
+			out.tags = append(out.tags, "identical-contents-submitted")
+			break
+		}
+	}
+
+	if sched.Interrupted {
+		// ---- crash cut -------------------------------------------------------------------------------------------
+		out.crashed = true
+		out.tags = append(out.tags, "crash-cut")
+		dead.Store(true)
+		kv.Fate.Kill() // no datastore operation is applied from here on
+		img := kv.Image()
+		crashT := clock.Add(1)
+		mu.Lock()
+		ops = append(ops, done...)
+		var wild []porcupine.Operation
+		for ti := range prog.threads {
+			if f := cur[ti]; f != nil {
+				in := f.in
+				in.wild = true
+				wild = append(wild, porcupine.Operation{ClientId: f.client, Input: in, Call: f.call, Output: qOut{}, Return: crashT})
+			}
+		}
+		mu.Unlock()
+		sched.Off()
+		synctest.Wait()
+		out.inflight = len(wild)
+		out.steps = sched.Steps
+		out.overlap, out.preLock = scheduleFeatures(sched.Trace, append(append([]porcupine.Operation{}, ops...), wild...))
+		kv2, seq2, err := open(img)
+		if err != nil {
+			out.fail = &world.Fail{Clause: "durability", Msg: "restart after the crash failed: " + err.Error()}
+			return
+		}
+		crashOp := porcupine.Operation{ClientId: 98, Input: qIn{crash: true}, Call: clock.Add(1), Output: qOut{}, Return: clock.Add(1)}
+		got, dops := drainOps(seq2)
+		out.trace = describe(ops) + "| CRASH, in flight: " + describe(wild) + "| restart hands out " + fmt.Sprint(got)
+		out.key = fmt.Sprintf("p%d b%d pre%d %s| crash in-flight %s| restart %v", cfg.Prog, bound, cfg.Pre, short(ops), short(wild), got)
+		// every fate of the in-flight calls: a submission is not applied / applied and durable / applied in memory only,
+		// a next is not applied / applied
+		okAny := false
+		fates := 1
+		for _, w := range wild {
+			if w.Input.(qIn).submit {
+				fates *= 3
+			} else {
+				fates *= 2
+			}
+		}
+		for f := 0; f < fates && !okAny; f++ {
+			h := append([]porcupine.Operation{}, ops...)
+			x := f
+			for _, w := range wild {
+				in := w.Input.(qIn)
+				n := 2
+				if in.submit {
+					n = 3
+				}
+				fate := x % n
+				x /= n
+				if fate == 0 {
+					continue
+				}
+				in.volatile = fate == 2
+				w.Input = in
+				h = append(h, w)
+			}
+			h = append(h, crashOp)
+			h = append(h, dops...)
+			okAny = porcupine.CheckOperations(m, h)
+		}
+		if !okAny {
+			out.fail = &world.Fail{Clause: crashClause(ops, wild, got, bound), Msg: "crash with operations in flight, then restart on the datastore as it was: whichever fate the in-flight calls are given (not applied / applied / for a submission: applied in memory only), the completed operations followed by what the restarted sequencer hands out are not a bounded FIFO with exactly-once delivery: " + out.trace}
+			return
+		}
+		if again := reloadDrain(open, kv2, drainOps); len(again) > 0 {
+			out.fail = &world.Fail{Clause: "exactly-once", Msg: fmt.Sprintf("after the restarted sequencer handed out everything (%v), a further restart hands out %v again: %s", got, again, out.trace)}
+		}
+		return
+	}
+
+	// ---- quiescence: fork into "keep running" and "restart" ----------------------------------------------------
 	if alive := sched.Alive(); len(alive) > 0 {
 		out.fail = &world.Fail{Clause: "deadlock", Msg: fmt.Sprintf("threads never finished: %v (blocked: %v)", alive, sched.Blocked())}
 		return
 	}
-	close(opCh)
-	for op := range opCh {
-		ops = append(ops, op)
+	out.steps = sched.Steps
+	mu.Lock()
+	ops = append(ops, done...)
+	mu.Unlock()
+	out.overlap, out.preLock = scheduleFeatures(sched.Trace, ops)
+	if out.overlap {
+		out.tags = append(out.tags, "overlapping-submissions")
 	}
-	// sequential epilogue: reload on the image, then drain; these are ordinary operations of the same history
-	seq2, err := single.NewSequencerWithQueueSize(ctx, world.Logger, world.NewKV(kv.Image()), nil, []byte(chainID), 0, nil, true, bound)
+	img := kv.Image()
+	kv2, seq2, err := open(img)
 	if err != nil {
-		out.fail = &world.Fail{Clause: "durability", Msg: "reload failed: " + err.Error()}
+		out.fail = &world.Fail{Clause: "durability", Msg: "restart failed: " + err.Error()}
 		return
 	}
-	seq = seq2
-	for i := 0; i < 4; i++ {
-		call := clock.Add(1)
-		resp, err := seq.GetNextBatch(ctx, coreseq.GetNextBatchRequest{Id: []byte(chainID)})
-		id := ""
-		if err == nil && resp != nil && resp.Batch != nil && len(resp.Batch.Transactions) > 0 {
-			id = string(resp.Batch.Transactions[0])
+	kv.Gate = nil
+	live, liveOps := drainOps(seq)
+	twin, _ := drainOps(seq2)
+	out.trace = describe(ops) + "| the running process hands out " + fmt.Sprint(live) + " | a restart at the same point hands out " + fmt.Sprint(twin)
+	out.key = fmt.Sprintf("p%d b%d pre%d %s| live %v| restart %v", cfg.Prog, bound, cfg.Pre, short(ops), live, twin)
+	if !porcupine.CheckOperations(m, append(append([]porcupine.Operation{}, ops...), liveOps...)) {
+		clause := "linearizable-fifo"
+		if len(live) > bound {
+			clause = "bound"
 		}
-		ops = append(ops, porcupine.Operation{ClientId: 3, Input: qIn{false, ""}, Call: call, Output: qOut{id: id}, Return: clock.Add(1)})
+		out.fail = &world.Fail{Clause: clause, Msg: "the concurrent history followed by a drain of the running process is not linearizable with respect to a bounded FIFO with exactly-once delivery: " + out.trace}
+		return
 	}
-	var sb strings.Builder
-	m := fifoModel(bound)
-	for _, op := range ops {
-		fmt.Fprintf(&sb, "[%d..%d c%d %s] ", op.Call, op.Return, op.ClientId, m.DescribeOperation(op.Input, op.Output))
+	if clause := drainDiff(live, twin); clause != "" {
+		out.tags = append(out.tags, "restart-at-quiescence")
+		out.fail = &world.Fail{Clause: clause, Msg: "write-ahead log and in-memory queue disagree once all calls have returned: the running process and a sequencer restarted on the same datastore do not hand out the same batches in the same order: " + out.trace}
+		return
 	}
-	out.trace = sb.String()
-	if !porcupine.CheckOperations(m, ops) {
-		out.fail = &world.Fail{Clause: "linearizable-fifo", Msg: "the concurrent history (followed by reload and drain) is not linearizable with respect to a bounded FIFO with exactly-once delivery: " + out.trace}
+	if again := reloadDrain(open, kv, drainOps); len(again) > 0 {
+		out.fail = &world.Fail{Clause: "exactly-once", Msg: fmt.Sprintf("after everything was handed out (%v), a restart hands out %v again: %s", live, again, out.trace)}
+		return
+	}
+	if again := reloadDrain(open, kv2, drainOps); len(again) > 0 {
+		out.fail = &world.Fail{Clause: "exactly-once", Msg: fmt.Sprintf("after the restarted sequencer handed out everything (%v), a further restart hands out %v again: %s", twin, again, out.trace)}
 	}
 	return
+}
+
+func reloadDrain(open func(map[string][]byte) (*world.KV, *single.Sequencer, error), kv *world.KV, drain func(*single.Sequencer) ([]string, []porcupine.Operation)) []string {
+	_, seq, err := open(kv.Image())
+	if err != nil {
+		return []string{"restart failed: " + err.Error()}
+	}
+	ids, _ := drain(seq)
+	return ids
+}
+
+func countStr(xs []string) map[string]int {
+	m := map[string]int{}
+	for _, x := range xs {
+		m[x]++
+	}
+	return m
+}
+
+// drainDiff names the clause violated when the restarted instance hands out `twin` where the running one hands out
+// `live` ("" = they agree).
+func drainDiff(live, twin []string) string {
+	lc, tc := countStr(live), countStr(twin)
+	for id, n := range tc {
+		if n > lc[id] {
+			return "exactly-once" // the restart hands out something that is not (or no longer) queued
+		}
+	}
+	for id, n := range lc {
+		if n > tc[id] {
+			return "durability" // accepted and undelivered, gone after the restart
+		}
+	}
+	for i := range live {
+		if live[i] != twin[i] {
+			return "fifo-order"
+		}
+	}
+	return ""
+}
+
+// crashClause names the clause for a failed crash cut.
+func crashClause(ops, wild []porcupine.Operation, got []string, bound int) string {
+	ack, maybe, out := map[string]int{}, map[string]int{}, countStr(got)
+	wildNext := 0
+	for _, op := range ops {
+		in, o := op.Input.(qIn), op.Output.(qOut)
+		if in.submit && o.ok {
+			ack[in.id]++
+		}
+		if !in.submit && o.id != "" {
+			out[o.id]++
+		}
+	}
+	for _, op := range wild {
+		if in := op.Input.(qIn); in.submit {
+			maybe[in.id]++
+		} else {
+			wildNext++
+		}
+	}
+	for id, n := range out {
+		if n > ack[id]+maybe[id] {
+			return "exactly-once"
+		}
+	}
+	if len(got) > bound {
+		return "bound"
+	}
+	missing := 0
+	for id, n := range ack {
+		if n > out[id] {
+			missing += n - out[id]
+		}
+	}
+	if missing > wildNext {
+		return "durability"
+	}
+	return "fifo-order"
+}
+
+// scheduleFeatures computes two history features from the grant trace ("thread:gate" in grant order) and the
+// operations: overlap = two submissions overlapped in time; preLock = some thread had been granted everything up to a
+// Lock() entry (it has evaluated whatever the operation evaluates before asking for the lock), and before it was
+// granted the Lock() entry itself another thread ran at least one whole operation (from its first to its last gate).
+func scheduleFeatures(trace []string, ops []porcupine.Operation) (overlap, preLock bool) {
+	for i, a := range ops {
+		for _, b := range ops[i+1:] {
+			ia, ib := a.Input.(qIn), b.Input.(qIn)
+			if ia.submit && ib.submit && a.ClientId != b.ClientId && a.Call < b.Return && b.Call < a.Return {
+				overlap = true
+			}
+		}
+	}
+	type seg struct{ first, last int }
+	segs := map[string][]seg{} // per thread: the grant index range of each operation
+	prev := map[string]int{}   // per thread: index of its previous grant
+	type wait struct {
+		thr      string
+		from, to int
+	}
+	var waits []wait
+	for i, e := range trace {
+		k := strings.IndexByte(e, ':')
+		if k < 0 {
+			continue
+		}
+		thr, gate := e[:k], e[k+1:]
+		if gate == "start" || gate == "op" {
+			segs[thr] = append(segs[thr], seg{i, i})
+		} else if n := len(segs[thr]); n > 0 {
+			segs[thr][n-1].last = i
+		}
+		if strings.HasPrefix(gate, "prelock:") {
+			if j, ok := prev[thr]; ok {
+				waits = append(waits, wait{thr, j, i})
+			}
+		}
+		prev[thr] = i
+	}
+	for _, w := range waits {
+		for thr, ss := range segs {
+			if thr == w.thr {
+				continue
+			}
+			for _, s := range ss {
+				if s.first > w.from && s.last < w.to {
+					preLock = true
+				}
+			}
+		}
+	}
+	return
+}
+
+// ---------------------------------------------------------------------------------------------------------------
+
+// concResult is what one process contributes (and what the parent merges).
+type concResult struct {
+	Viol       []vf.Violation
+	Outcomes   map[string]int
+	PerProg    map[string]map[string]int64
+	Samples    []any
+	Executions int64
+	Points     int64
+	Caps       []string
+	Engine     []string
+	Shards     int
+}
+
+func concBoundsText(thorough bool) []map[string]any {
+	tier := 0
+	if thorough {
+		tier = 1
+	}
+	var out []map[string]any
+	for _, prog := range concProgs {
+		if prog.tier > tier {
+			continue
+		}
+		var d any = prog.delay[tier]
+		if prog.delay[tier] < 0 {
+			d = "none (every interleaving)"
+		}
+		out = append(out, map[string]any{"threads": prog.name, "delay_bound": d, "crash_cuts": prog.crash[tier]})
+	}
+	return out
+}
+
+// runConc explores every configuration of the concurrent part in this process. With VERIF_SHARD=i/n in the
+// environment the engine keeps only every n-th subtree below each root execution; the root execution itself is run by
+// every shard and counted by shard 0 only.
+func runConc(t *testing.T, thorough bool) concResult {
+	tier := 0
+	if thorough {
+		tier = 1
+	}
+	shardI, shardN := 0, 1
+	if sp := os.Getenv("VERIF_SHARD"); sp != "" {
+		fmt.Sscanf(sp, "%d/%d", &shardI, &shardN)
+	}
+	res := concResult{Outcomes: map[string]int{}, PerProg: map[string]map[string]int64{}, Shards: 1}
+	var mu sync.Mutex
+	deadline := 45 * time.Second
+	if thorough {
+		deadline = 15 * time.Minute
+	}
+	start := time.Now()
+	for pi, prog := range concProgs {
+		if prog.tier > tier {
+			continue
+		}
+		budgets := map[string]int{}
+		if prog.delay[tier] >= 0 {
+			budgets["sched"] = prog.delay[tier]
+		}
+		for _, bound := range []int{1, 2, 3} {
+			for pre := 0; pre <= 1; pre++ {
+				cfg := concCfg{Prog: pi, Bound: bound, Pre: pre, Crash: prog.crash[tier]}
+				left := deadline - time.Since(start)
+				if left < time.Second {
+					left = time.Second
+				}
+				st := explore.Explore(explore.Config{Budgets: budgets, Deadline: left}, func(c *explore.Ctx) {
+					o := concBody(t, c, cfg)
+					root := true
+					for _, p := range c.Choices() {
+						if p.Choice != 0 {
+							root = false
+						}
+					}
+					mu.Lock()
+					defer mu.Unlock()
+					if o.fail != nil {
+						if o.fail.Clause == "engine" {
+							res.Engine = append(res.Engine, o.fail.Msg)
+							return
+						}
+						res.Viol = append(res.Viol, vf.Violation{Clause: o.fail.Clause, Tags: o.tags, Msg: fmt.Sprintf("threads %s, queue size %d, %d batch(es) P carried over a restart before the threads start: %s", prog.name, bound, pre, o.fail.Msg), Cost: c.Cost(), History: replay{Bound: bound, Conc: c.Choices(), CC: &cfg}})
+						return
+					}
+					if root && shardI != 0 {
+						return // counted by shard 0
+					}
+					res.Executions++
+					res.Points += int64(len(c.Choices()))
+					p := res.PerProg[prog.name]
+					if p == nil {
+						p = map[string]int64{}
+						res.PerProg[prog.name] = p
+					}
+					o.count(p)
+					res.Outcomes["conc:"+o.key]++
+					if h := histHash([]int{len(o.key), c.Cost(), bound, pre}); h%97 == 0 && (o.preLock || o.crashed) && len(res.Samples) < 3 {
+						res.Samples = append(res.Samples, map[string]any{"threads": prog.name, "queue_size": bound, "preloaded": pre, "history": o.trace})
+					}
+				})
+				for _, m := range st.Nondet {
+					res.Engine = append(res.Engine, "nondeterminism: "+m)
+				}
+				if st.Capped != "" {
+					res.Caps = append(res.Caps, fmt.Sprintf("concurrent part, threads %s, queue size %d, preloaded %d: %s", prog.name, bound, pre, st.Capped))
+				}
+			}
+		}
+	}
+	return res
+}
+
+// concShardMain is the body of a child process.
+func concShardMain(t *testing.T) {
+	world.EnablePreLockGates()
+	res := runConc(t, os.Getenv("VERIF_TIER") == "thorough")
+	bz, err := json.Marshal(res)
+	if err == nil {
+		err = os.WriteFile(os.Getenv("C10_CONC_OUT"), bz, 0o644)
+	}
+	if err != nil {
+		fmt.Println("ENGINE-ERROR: shard cannot write its result:", err)
+		os.Exit(2)
+	}
+}
+
+// runConcSharded runs the concurrent part in n child processes (GOMAXPROCS=1 each) and merges their results.
+func runConcSharded(t *testing.T, thorough bool, n int) concResult {
+	if os.Getenv("VERIF_NOSHARD") != "" || n <= 1 {
+		return runConc(t, thorough)
+	}
+	merged := concResult{Outcomes: map[string]int{}, PerProg: map[string]map[string]int64{}, Shards: n}
+	dir, err := os.MkdirTemp("", "c10-conc")
+	if err != nil {
+		merged.Engine = append(merged.Engine, err.Error())
+		return merged
+	}
+	defer os.RemoveAll(dir)
+	type job struct {
+		cmd *exec.Cmd
+		out string
+		buf *bytes.Buffer
+	}
+	var jobs []job
+	for i := 0; i < n; i++ {
+		out := filepath.Join(dir, fmt.Sprintf("shard-%d.json", i))
+		cmd := exec.Command(os.Args[0], "-test.run", "^TestCheck$", "-test.timeout", "0")
+		cmd.Env = append(os.Environ(), fmt.Sprintf("VERIF_SHARD=%d/%d", i, n), "C10_CONC_OUT="+out, "GOMAXPROCS=1", "VERIF_WORKERS=1")
+		buf := &bytes.Buffer{}
+		cmd.Stdout, cmd.Stderr = buf, buf
+		if err := cmd.Start(); err != nil {
+			merged.Engine = append(merged.Engine, "cannot start shard: "+err.Error())
+			continue
+		}
+		jobs = append(jobs, job{cmd, out, buf})
+	}
+	for i, j := range jobs {
+		err := j.cmd.Wait()
+		bz, rerr := os.ReadFile(j.out)
+		if err != nil || rerr != nil {
+			tail := j.buf.String()
+			if len(tail) > 1500 {
+				tail = tail[len(tail)-1500:]
+			}
+			merged.Engine = append(merged.Engine, fmt.Sprintf("shard %d failed (%v, %v): %s", i, err, rerr, tail))
+			continue
+		}
+		var res concResult
+		if err := json.Unmarshal(bz, &res); err != nil {
+			merged.Engine = append(merged.Engine, fmt.Sprintf("shard %d result does not parse: %v", i, err))
+			continue
+		}
+		merged.Viol = append(merged.Viol, res.Viol...)
+		for k, v := range res.Outcomes {
+			merged.Outcomes[k] += v
+		}
+		for prog, m := range res.PerProg {
+			p := merged.PerProg[prog]
+			if p == nil {
+				p = map[string]int64{}
+				merged.PerProg[prog] = p
+			}
+			for k, v := range m {
+				if strings.HasPrefix(k, "max_") {
+					if v > p[k] {
+						p[k] = v
+					}
+				} else {
+					p[k] += v
+				}
+			}
+		}
+		if len(merged.Samples) < 6 {
+			merged.Samples = append(merged.Samples, res.Samples...)
+		}
+		merged.Executions += res.Executions
+		merged.Points += res.Points
+		for _, c := range res.Caps {
+			merged.Caps = append(merged.Caps, fmt.Sprintf("process %d: %s", i, c))
+		}
+		for _, e := range res.Engine {
+			merged.Engine = append(merged.Engine, fmt.Sprintf("process %d: %s", i, e))
+		}
+	}
+	// cheapest example of each class first (the reporting layer keeps the first of a class)
+	sort.SliceStable(merged.Viol, func(i, j int) bool {
+		a, b := merged.Viol[i], merged.Viol[j]
+		if a.Cost != b.Cost {
+			return a.Cost < b.Cost
+		}
+		return len(a.Msg) < len(b.Msg)
+	})
+	return merged
+}
+
+// count adds this execution to the per-thread-program counters.
+func (o concOutcome) count(p map[string]int64) {
+	p["executions"]++
+	if o.crashed {
+		p["crash_cuts"]++
+		if o.inflight > 0 {
+			p["crash_cuts_with_operations_in_flight"]++
+		}
+	} else {
+		p["ran_to_quiescence_fork_live_vs_restart"]++
+		if o.overlap {
+			p["quiescent_with_overlapping_submissions"]++
+		}
+		if o.preLock {
+			p["quiescent_with_whole_operation_between_pre_lock_evaluation_and_lock"]++
+		}
+	}
+	if int64(o.steps) > p["max_scheduling_steps"] {
+		p["max_scheduling_steps"] = int64(o.steps)
+	}
+}
+
+func sortedKeys(m map[string]map[string]int64) []string {
+	var ks []string
+	for k := range m {
+		ks = append(ks, k)
+	}
+	sort.Strings(ks)
+	return ks
 }
